@@ -43,15 +43,23 @@ def confirm(d):
 
 
 def run(d, pid, tier='quick'):
-    assert sh('git -C /repo status --porcelain').stdout.strip() == b'', '/repo not clean'
-    r = sh('git -C /repo apply %s/patch.diff' % d)
-    if r.returncode:
-        return {'error': 'patch does not apply: ' + r.stdout.decode()[-300:]}
+    """Run the check against the seeded change.  The patch is applied to a scratch worktree of /repo's HEAD
+    (equivalent to applying it to /repo and undoing it, but leaves /repo untouched so other work can go on);
+    evidence and replay files of this run go to a scratch directory."""
+    wt = tempfile.mkdtemp(prefix='mutrun_')
+    os.rmdir(wt)
+    sh('git -C /repo worktree add -q --detach %s HEAD' % wt)
+    scratch = tempfile.mkdtemp(prefix='mutev_')
     try:
-        r = sh('cd /verif && %s -B harness/vcheck.py %s --tier %s' % (PY, pid, tier))
+        r = sh('git -C %s apply %s/patch.diff' % (wt, d))
+        if r.returncode:
+            return {'error': 'patch does not apply: ' + r.stdout.decode()[-300:]}
+        env = dict(os.environ, VERIF_REPO=wt, VERIF_EVIDENCE_DIR=scratch, VERIF_REPLAY_DIR=scratch)
+        r = sh('cd /verif && %s -B harness/vcheck.py %s --tier %s' % (PY, pid, tier), env=env)
         txt = r.stdout.decode()
     finally:
-        sh('git -C /repo checkout -- .')
+        sh('git -C /repo worktree remove --force %s' % wt)
+        sh('rm -rf %s' % scratch)
     viol = [l for l in txt.splitlines() if l.startswith('VIOLATION')]
     what = [l for l in txt.splitlines() if l.startswith('  what:')]
     return {'rc': r.returncode, 'violations': len(viol), 'first': (what[0][:300] if what else ''),
@@ -81,7 +89,7 @@ def keep(d, pid, tier='quick'):
             'confirmed': {'base_commit': head, 'tests_with_patch': c['tests'],
                           'demo_rc_clean_tree': c['demo_clean_rc'], 'demo_rc_patched_tree': c['demo_mutant_rc'],
                           'how': 'harness/mutants.py confirm (scratch worktree under /tmp, removed afterwards)'},
-            'check_result': {'command': 'harness/vcheck.py %s --tier %s (patch applied to /repo, reverted afterwards)' % (pid, tier),
+            'check_result': {'command': 'harness/vcheck.py %s --tier %s with the patch applied to a scratch worktree of /repo HEAD (VERIF_REPO), removed afterwards' % (pid, tier),
                              'exit': r.get('rc'), 'violations': r.get('violations'), 'first_violation': r.get('first'),
                              'detected': r.get('rc') == 1}}
     with open(os.path.join(dst, 'meta.json'), 'w') as f:
